@@ -317,6 +317,23 @@ func (r *rig) judge() *gx.Outcome {
 			}
 			nextSeq[k] = a.seq + 1
 		}
+		// "a message's sequence number is assigned once": the transaction manager never hands out more numbers for a
+		// partition than messages were submitted to it (a re-sent message keeps the number it has)
+		handed := map[string]int{}
+		for _, a := range r.seqLog {
+			handed[a.key]++
+		}
+		for k, n := range handed {
+			subm := 0
+			for i := 0; i < r.submitted && i < len(p.Parts); i++ {
+				if fmt.Sprintf("t-%d", p.Parts[i]) == k {
+					subm++
+				}
+			}
+			if n > subm {
+				out.Violate("C05", "sequence-assigned-more-than-once", "%d sequence numbers were handed out for %s but only %d messages were submitted to it: a re-sent message was given a new number (numbers handed out: %v) (%s); %s", n, k, subm, r.seqLog, cfg, summary())
+			}
+		}
 		seenB := map[key][]*sent{}
 		// "a resent batch carries the identical sequence range, epoch and records": a batch handed back to a broker
 		// worker as a whole (retryBatch) is recognisable in the trace - between the answer to its previous
